@@ -249,3 +249,155 @@ def trigger_task(fname, key, method, argname, argty, time_of):
 
 for _t in TRIGGERS:
     trigger_task(*_t)
+
+
+# ----------------------------------------------------------------------------- _add_event (C13): no double registration; each registration key gets the hook once
+import ast as _ast
+from pyvc.spec import run_block, find_loops      # noqa
+QA = "Simulator._add_event"
+
+
+def reg_name(st, h):
+    return z3.Concat(st.read(h, "hook_type").term, z3.If(st.read(h, "is_before").term, z3.StringVal("_before"), z3.StringVal("_after")))
+
+
+def inner_of(st, sim, name_term):
+    ed = st.read(sim, "events_dict")
+    return ed, V(ed.ty[2], z3.Select(st.dict_val(ed), name_term))
+
+
+class RegisterLoop:
+    """the registration loop is verified per key (task Simulator._add_event[per-key]); here it is summarised as a trace event"""
+    header = None
+    name = "register-times"
+
+    def run_for(self, ex, s, st, d):
+        out = []
+        for s1, it in ex.ev(s.iter, st, d):
+            s1 = s1.copy(); s1.trace = s1.trace + [("RegisterKeys", None, (it.term if it.term is not None else z3.IntVal(-1),))]
+            havoc_with_frame_(s1, ["len", "mem", "el:Ref", "nodup", "heapok", "dd:OptInt_Ref", "dv:OptInt_Ref"])
+            out.append((s1, "fall", None))
+        return out
+
+
+def havoc_with_frame_(st, mods):
+    from pyvc.spec import havoc_with_frame
+    havoc_with_frame(st, mods)
+
+
+def ae_pre_(st, a):
+    sim, h = a["self"], a["event_hook"]
+    ed = st.read(sim, "events_dict")
+    return [("the hook was built by EventHook(...): its occasion is one of the nine table keys", st.dict_has(ed, V(("str",), reg_name(st, h)))),
+            ("the hook list and the event list are separate objects", st.read(sim, "events").term != st.read(sim, "event_hooks").term)]
+
+
+ADD_EVENT = FSpec(QA, pre=ae_pre_, props=("C13",),
+                  raises={"ValueError": lambda st, a: st.mem(st.read(a["self"], "event_hooks").term, a["event_hook"].term)},
+                  modifies=lambda st, a: ["len", "mem", "el:Ref", "nodup", "heapok", "dd:OptInt_Ref", "dv:OptInt_Ref", "dd:Int_Ref", "dv:Int_Ref", "dd:String_Ref", "dv:String_Ref",
+                                          ("f:Simulator.n_events", [a["self"].term]), "len:Int", "el:Int", "el:Int?"])
+
+
+@task(QA, props=["C13"], functions=[QA], replay="whole_run")
+def t_add_event():
+    """a hook cannot be registered twice (ValueError iff already registered); otherwise it is appended once to the hook list before its keys are registered"""
+    fn = get_src_().funcs[QA][0]
+    loops = find_loops(fn, kind=_ast.For)
+    if len(loops) != 1:
+        raise Unsupported(f"anchor-lost: registration loop of {QA}")
+
+    def extra(ex, st0, s1, a, res):
+        sim, h = a["self"], a["event_hook"]
+        hooks = st0.read(sim, "event_hooks").term
+        pre_loop = s1.ghost.get("pre_loop")
+        s1.oblige("trace:exactly one pass over the registration keys", z3.BoolVal([t[0] for t in s1.trace] == ["RegisterKeys"]), "trace")
+        if pre_loop is not None:
+            x = z3.Const("x_ae", REF)
+            pre_loop.obl = s1.obl; pre_loop.quiet = False; pre_loop.labels = list(s1.labels)
+            pre_loop.oblige("post:the hook is appended exactly once to the list of registered hooks",
+                            z3.And(pre_loop.read(sim, "event_hooks").term == hooks, pre_loop.length(hooks) == st0.length(hooks) + 1,
+                                   z3.ForAll([x], pre_loop.mem(hooks, x) == z3.Or(st0.mem(hooks, x), x == h.term))), "post")
+
+    def setup(ex, st, a):
+        def snap(ex_, s1):
+            s1.ghost["pre_loop"] = s1.copy()
+        ex.ghost_after = {"assign:times": snap}
+    node = loops[0]
+    obl, info = ADD_EVENT.verify(loops={0: RegisterLoop()}, setup=setup, extra_goals=extra)
+    return {"obligations": obl, "info": [info]}
+
+
+def get_src_():
+    from pyvc.src import get_src
+    return get_src()
+
+
+@task(QA + "[per-key]", props=["C13"], functions=[QA], replay="whole_run")
+def t_add_event_key():
+    """one registration key: the hook is appended exactly once to the bucket of (occasion, key), which is created if missing; every other bucket is untouched.
+    With pairwise distinct keys (obligation `keys-distinct`) the for-each rule gives multiplicity one per bucket."""
+    fn = get_src_().funcs[QA][0]
+    loop = find_loops(fn, kind=_ast.For)[0]
+    sim = sym_obj("Simulator", "sim"); h = sym_obj("EventHook", "hook")
+    R = V(("str",), z3.Const("register_name", z3.StringSort()))
+    key = V(("opt", ("int",)), z3.Const("time_key", z3.IntSort()), none=z3.Bool("time_key?"))
+    env = {"self": sim, "event_hook": h, "register_name": R, loop.target.id: key}
+
+    def assume(st):
+        ed, inn = inner_of(st, sim, R.term)
+        tau = z3.Const("tau_k", OptInt)
+        return [st.dict_has(ed, R), st.is_alloc(inn.term),
+                z3.ForAll([tau], z3.Implies(z3.Select(st.dict_dom(inn), tau), z3.And(st.is_alloc(z3.Select(st.dict_val(inn), tau)), st.nodup(z3.Select(st.dict_val(inn), tau)) == st.nodup(z3.Select(st.dict_val(inn), tau)))))]
+    ex, st0, outs, obl = run_block(QA, loop.body, env, assume=assume, label=QA + "[per-key]")
+    ed0, inn0 = inner_of(st0, sim, R.term)
+    k = coerce(key, ("optint",))
+    tau = z3.Const("tau_k2", OptInt); x = z3.Const("x_k", REF)
+    n = 0
+    for s1, kind, val in outs:
+        if kind == "raise":
+            s1.oblige(f"no-raise:{val[0]}@{val[1]}", z3.BoolVal(False), "no-raise"); continue
+        n += 1
+        ed1, inn1 = inner_of(s1, sim, R.term)
+        d0 = lambda t_: z3.Select(st0.dict_dom(inn0), t_); b0 = lambda t_: z3.Select(st0.dict_val(inn0), t_)
+        d1 = lambda t_: z3.Select(s1.dict_dom(inn1), t_); b1 = lambda t_: z3.Select(s1.dict_val(inn1), t_)
+        s1.oblige("post:the bucket of this key exists afterwards and holds the old entries followed by the hook (appended exactly once)",
+                  z3.And(inn1.term == inn0.term, d1(k), s1.length(b1(k)) == z3.If(d0(k), st0.length(b0(k)), 0) + 1,
+                         z3.ForAll([x], s1.mem(b1(k), x) == z3.Or(z3.And(d0(k), st0.mem(b0(k), x)), x == h.term)),
+                         z3.Select(s1.elems(b1(k), ("ref", "EventHook")), s1.length(b1(k)) - 1) == h.term), "post")
+        s1.oblige("post:every other key of the table keeps its bucket object, and that bucket is untouched",
+                  z3.ForAll([tau], z3.Implies(tau != k, z3.And(d1(tau) == d0(tau), z3.Implies(d0(tau), z3.And(b1(tau) == b0(tau), z3.Implies(b0(tau) != b1(k),
+                            z3.And(s1.memset(b0(tau)) == st0.memset(b0(tau)), s1.length(b0(tau)) == st0.length(b0(tau))))))))), "post")
+        s1.oblige("post:a new bucket is a fresh list", z3.Implies(z3.Not(d0(k)), z3.Not(st0.is_alloc(b1(k)))), "post")
+    obl.append({"name": QA + "[per-key]/cover:paths", "pc": [], "goal": z3.BoolVal(n >= 2), "kind": "cover"})
+    info = {"function": QA + " (body of the registration loop)", "source_sha": get_src_().source_hash(QA), "where": get_src_().where(QA), "paths": n, "assumptions": sorted(ex.used_assumptions)}
+    return {"obligations": obl, "info": [info]}
+
+
+@task(QA + "[keys-distinct]", props=["C13"], functions=[QA], replay="hooks")
+def t_add_event_keys_distinct():
+    """the registration loop runs over pairwise distinct keys, so no bucket receives the hook twice (a hook is invoked exactly once per matching occurrence)"""
+    fn = get_src_().funcs[QA][0]
+    loop = find_loops(fn, kind=_ast.For)[0]
+    idx = fn.body.index(loop) if loop in fn.body else None
+    if idx is None:
+        raise Unsupported("anchor-lost: registration loop is not a top-level statement of " + QA)
+    sim = sym_obj("Simulator", "sim"); h = sym_obj("EventHook", "hook")
+    # run the statements that compute the iterated sequence (`register_name = ...`, `times = ...`), then evaluate the loop's iterable
+    pre_stmts = [s_ for s_ in fn.body[:idx] if isinstance(s_, (_ast.Assign, _ast.AnnAssign)) and isinstance((s_.targets[0] if isinstance(s_, _ast.Assign) else s_.target), _ast.Name)
+                 and (s_.targets[0] if isinstance(s_, _ast.Assign) else s_.target).id in ("times", "register_name", "event")]
+    ex, st0, outs, obl = run_block(QA, pre_stmts, {"self": sim, "event_hook": h}, label=QA + "[keys-distinct]")
+    n = 0
+    for s1, kind, val in outs:
+        if kind != "fall":
+            continue
+        for s2, it in ex.ev(loop.iter, s1, 0):
+            n += 1
+            s2 = s2.copy(); s2.labels = [QA + "[keys-distinct]"]
+            length, at, ety = ex.iter_view(s2, it)
+            i, j = z3.Ints("i_kd j_kd")
+            ki = coerce(at(s2, i), ("optint",)); kj = coerce(at(s2, j), ("optint",))
+            s2.oblige("post:C13 the registration keys are pairwise distinct (each bucket gets the hook once, so it fires once per matching occurrence)",
+                      z3.ForAll([i, j], z3.Implies(z3.And(0 <= i, i < j, j < length), ki != kj)), "post")
+    obl.append({"name": QA + "[keys-distinct]/cover:paths", "pc": [], "goal": z3.BoolVal(n >= 2), "kind": "cover"})
+    info = {"function": QA + " (iterable of the registration loop)", "source_sha": get_src_().source_hash(QA), "where": get_src_().where(QA), "paths": n, "assumptions": sorted(ex.used_assumptions)}
+    return {"obligations": obl, "info": [info]}
